@@ -161,6 +161,19 @@ def apply_inserts(item, body):
         if nth is not None and (len(ms) < abs(nth) or nth == 0):
             raise LostAnchor('item %s: insert anchor %r #%d but only %d matches' % (item.id, anchor, nth, len(ms)))
         m = ms[0] if nth is None else (ms[nth - 1] if nth > 0 else ms[nth])
+        if where == 'afterstmt':
+            # the anchor is the head of a block statement (`if .. {`, `match .. {`, `{`): insert after its closing brace, `else` chains included
+            mb = mask(body)
+            if not m.group(0).rstrip().endswith('{'):
+                raise LostAnchor('item %s: afterstmt anchor %r does not end with `{`' % (item.id, anchor))
+            pos = match_brace(mb, m.start() + len(m.group(0).rstrip()) - 1) + 1
+            while True:
+                m2 = re.match(r'\s*else\b[^{;]*\{', mb[pos:])
+                if not m2:
+                    break
+                pos = match_brace(mb, pos + m2.end() - 1) + 1
+            todo.append((pos, lines))
+            continue
         todo.append((m.end() if where == 'after' else m.start(), lines))
     for (pos, lines) in sorted(todo, key=lambda t: -t[0]):
         text = '\n' + '\n'.join(lines) + '\n'
@@ -335,7 +348,7 @@ class Unit:
                         nth = int(nth)
                     if where == 'start':
                         where, nth = 'after', 1
-                    if not m or where not in ('after', 'before'):
+                    if not m or where not in ('after', 'before', 'afterstmt'):
                         raise UnitError('%s:%d bad ins directive' % (self.path, i + 1))
                     blk = []
                     i += 1
